@@ -110,49 +110,6 @@ theorem fetched_origin' (store : Storage.Keyspace) (modified : List (Nat × Nat)
       simp only [Option.some.injEq] at hmd
       subst hmd; rfl
 
-def fetchOne (store : Storage.Keyspace) (m : Nat × Nat) : Option Doc :=
-  match aget store.data m.1, aget store.rows m.1 with
-  | some bytes, some (ts, _) => some (m.1, ts, bytes)
-  | _, _ => none
-
-theorem fetched_eq (store : Storage.Keyspace) (modified : List (Nat × Nat)) :
-    fetched store modified = modified.filterMap (fetchOne store) := rfl
-
-theorem fetchOne_id (store : Storage.Keyspace) (m : Nat × Nat) (d : Doc) (h : fetchOne store m = some d) : d.1 = m.1 := by
-  unfold fetchOne at h
-  cases hdat : aget store.data m.1 with
-  | none => rw [hdat] at h; simp at h
-  | some bytes =>
-    cases hrow : aget store.rows m.1 with
-    | none => rw [hdat, hrow] at h; simp at h
-    | some row =>
-      obtain ⟨ts, tomb⟩ := row
-      rw [hdat, hrow] at h
-      simp only [Option.some.injEq] at h
-      subst h; rfl
-
-theorem fetched_nodup (store : Storage.Keyspace) (modified : List (Nat × Nat)) (h : (modified.map (·.1)).Nodup) :
-    C02.NoDupIds (fetched store modified) := by
-  unfold C02.NoDupIds
-  rw [fetched_eq]
-  induction modified with
-  | nil => simp
-  | cons m ms ih =>
-    simp only [List.map_cons, List.nodup_cons] at h
-    have ih' := ih h.2
-    rw [List.filterMap_cons]
-    cases hfm : fetchOne store m with
-    | none => exact ih'
-    | some d =>
-      simp only [List.map_cons, List.nodup_cons]
-      refine ⟨?_, ih'⟩
-      intro hmem
-      obtain ⟨d', hd', e⟩ := List.mem_map.1 hmem
-      obtain ⟨m', hm', hfm'⟩ := List.mem_filterMap.1 hd'
-      apply h.1
-      rw [← fetchOne_id store m d hfm, ← e, fetchOne_id store m' d' hfm']
-      exact List.mem_map.2 ⟨m', hm', rfl⟩
-
 theorem applyRemovals_good (c : Cluster) (j : Nat) (removed : List (Nat × Nat)) (h : j < c.nodes.length)
     (hf : (getNode c j).failNext = false) (hg : NodesGood c) (hnd : C02.NoDupIds removed)
     (hv : ∀ p ∈ removed, ValidStamp p.2) : NodesGood (applyRemovals c j removed).1 := by
@@ -160,7 +117,7 @@ theorem applyRemovals_good (c : Cluster) (j : Nat) (removed : List (Nat × Nat))
   match removed with
   | [] => exact hg
   | [r] => exact applyAt_good c j 1 _ h hf hg (hv r List.mem_cons_self)
-  | r1 :: r2 :: rest => exact applyAt_good c j 1 _ h hf hg ⟨hnd, hv⟩
+  | r1 :: r2 :: rest => exact applyAt_good c j 1 _ h hf hg hv
 
 theorem applyModified_good (c : Cluster) (j i : Nat) (modified : List (Nat × Nat)) (h : j < c.nodes.length)
     (hf : (getNode c j).failNext = false) (hg : NodesGood c) (hnd : (modified.map (·.1)).Nodup)
@@ -168,7 +125,7 @@ theorem applyModified_good (c : Cluster) (j i : Nat) (modified : List (Nat × Na
   unfold applyModified
   match modified with
   | [] => exact hg
-  | m :: ms => exact applyAt_good c j 1 _ h hf hg ⟨fetched_nodup _ _ hnd, hv⟩
+  | m :: ms => exact applyAt_good c j 1 _ h hf hg hv
 
 theorem nodesGood_of_ks (c c' : Cluster) (h : ∀ x, (getNode c' x).ks = (getNode c x).ks) (hg : NodesGood c) : NodesGood c' :=
   fun x => by rw [h x]; exact hg x
@@ -232,16 +189,11 @@ structure Inv (H : List Op) (c : Cluster) (a : Cl) : Prop where
   good : Good Cluster.F H a
   nodes : NodesGood c
 
-def BulkNoDup : Issued → Prop
-  | .mput ds => C02.NoDupIds ds
-  | .mdel ds => C02.NoDupIds ds
-  | _ => True
-
 /-- What a step needs from its environment: it acts at an existing node whose storage call does not
-fail, requests carry operations of the history (distinct ids within one bulk request), a node does
-not repair from itself. -/
+fail, requests carry operations of the history (a bulk request may name a document several times:
+fix D13), a node does not repair from itself. -/
 def Admissible' (H : List Op) (c : Cluster) : XStep → Prop
-  | .request i _ iss => i < c.nodes.length ∧ (getNode c i).failNext = false ∧ (∀ o ∈ carried iss, o ∈ H) ∧ BulkNoDup iss
+  | .request i _ iss => i < c.nodes.length ∧ (getNode c i).failNext = false ∧ (∀ o ∈ carried iss, o ∈ H)
   | .exchange j i _ => j < c.nodes.length ∧ (getNode c j).failNext = false ∧ j ≠ i
 
 def AdmissibleRun' (H : List Op) : Cluster → List XStep → Prop
@@ -249,15 +201,15 @@ def AdmissibleRun' (H : List Op) : Cluster → List XStep → Prop
   | c, s :: rest => Admissible' H c s ∧ AdmissibleRun' H (xstep c s) rest
 
 theorem reqValid_of_carried (H : List Op) (hh : Hist Cluster.F H) (src : Nat) (iss : Issued)
-    (hH : ∀ o ∈ carried iss, o ∈ H) (hb : BulkNoDup iss) : C02.ReqValid (reqOf src iss) := by
+    (hH : ∀ o ∈ carried iss, o ∈ H) : C02.ReqValid (reqOf src iss) := by
   cases iss with
   | put d => exact hh.good.valid _ (hH ⟨d.1, d.2.1, false⟩ (by simp [carried]))
   | del id ts => exact hh.good.valid _ (hH ⟨id, ts, true⟩ (by simp [carried]))
   | mput ds =>
-    refine ⟨hb, fun d hd => ?_⟩
+    intro d hd
     exact hh.good.valid _ (hH ⟨d.1, d.2.1, false⟩ (by simp only [carried, List.mem_map]; exact ⟨d, hd, rfl⟩))
   | mdel ds =>
-    refine ⟨hb, fun d hd => ?_⟩
+    intro d hd
     exact hh.good.valid _ (hH ⟨d.1, d.2, true⟩ (by simp only [carried, List.mem_map]; exact ⟨d, hd, rfl⟩))
 
 /-- **xstep_inv**: one step of the executable cluster keeps the whole relation and is matched by
@@ -268,9 +220,9 @@ theorem xstep_inv (H : List Op) (hh : Hist Cluster.F H) (c : Cluster) (a : Cl) (
   obtain ⟨hs, hg, hn⟩ := inv
   cases s with
   | request i src iss =>
-    obtain ⟨hl, hf, hH, hb⟩ := hadm
+    obtain ⟨hl, hf, hH⟩ := hadm
     obtain ⟨hv, hsets, hgood⟩ := xstep_refines H hh c a hg hs (.request i src iss) ⟨hl, hf, hH⟩
-    exact ⟨hv, hsets, hgood, applyAt_good c i src iss hl hf hn (reqValid_of_carried H hh src iss hH hb)⟩
+    exact ⟨hv, hsets, hgood, applyAt_good c i src iss hl hf hn (reqValid_of_carried H hh src iss hH)⟩
   | exchange j i rf =>
     obtain ⟨hl, hf, hji⟩ := hadm
     have hagree : Agree (getNode c i).ks := (hn i).agree
